@@ -22,8 +22,16 @@ Decided for derived-type argument expansion and duplicate-argument removal:
      caller must drop every later occurrence too -- "first wins" and independent
      of adjacency.  ``itertools.groupby`` over a sequence that is not sorted by the
      same key only merges neighbours and is reported.
-Not decided: sequence-association resolution, explicit argument shapes,
-type-bound call rewriting, and the equivalence of the rewritten bodies.
+ R5  a rewritten call keeps its positional / keyword partition: wherever a
+     transformation replaces only the positional list of a call
+     (``call.clone(arguments=A)`` / ``call._update(arguments=A)`` without
+     ``kwarguments=``), ``A`` is derived from the positional arguments, never from
+     ``call.arg_map`` / ``call.arg_iter()``, which also enumerate the keyword
+     arguments -- those would then be passed twice (all call-rewriting sites under
+     ``loki/transformations``).
+Not decided: the index arithmetic of sequence-association resolution, explicit
+argument shapes, type-bound call rewriting, and the equivalence of the rewritten
+bodies.
 """
 import ast
 
@@ -244,9 +252,62 @@ def run(ctx):
         (ctx.judge('R4', 'keyword duplicates among themselves: first occurrence kept') if first_wins else
          ctx.violation('R4', 'remove_duplicate_args_call:keyword-vs-keyword', f'{rd.module.relpath}:{caller.lineno}',
                        'two keyword arguments with the same actual are both kept on the caller side although the callee drops the second dummy'))
+    run_r5(ctx)
+
+
+def run_r5(ctx):
+    m = ctx.model
+    ctx.rule('R5', 'clone/_update(arguments=A) without kwarguments=: A is not accumulated over call.arg_map / call.arg_iter() (all transformations)')
+    n = 0
+    for mod in [x for x in m.all_repo_modules(packages=('loki',)) if x.relpath.startswith('loki/transformations/')]:
+        for fn in [x for x in ast.walk(mod.tree) if isinstance(x, (ast.FunctionDef, ast.AsyncFunctionDef))]:
+            sites = [c for c in ast.walk(fn) if isinstance(c, ast.Call) and isinstance(c.func, ast.Attribute) and c.func.attr in ('clone', '_update')
+                     and any(k.arg == 'arguments' for k in c.keywords) and not any(k.arg == 'kwarguments' for k in c.keywords)]
+            if not sites:
+                continue
+            # names accumulated inside a loop / comprehension over all (positional + keyword) arguments
+            tainted = {}
+            for l in ast.walk(fn):
+                it = None
+                if isinstance(l, ast.For):
+                    it, body = l.iter, l.body
+                    if '.arg_map' in ast.unparse(it) or '.arg_iter()' in ast.unparse(it):
+                        for st in [x for b in body for x in ast.walk(b)]:
+                            if isinstance(st, ast.AugAssign) and isinstance(st.target, ast.Name):
+                                tainted[st.target.id] = l.lineno
+                            if isinstance(st, ast.Call) and isinstance(st.func, ast.Attribute) and st.func.attr in ('append', 'extend') \
+                                    and isinstance(st.func.value, ast.Name):
+                                tainted[st.func.value.id] = l.lineno
+                if isinstance(l, ast.Assign) and isinstance(l.targets[0], ast.Name):
+                    for c_ in ast.walk(l.value):
+                        if isinstance(c_, (ast.ListComp, ast.GeneratorExp)) and any(
+                                '.arg_map' in ast.unparse(g.iter) or '.arg_iter()' in ast.unparse(g.iter) for g in c_.generators):
+                            tainted[l.targets[0].id] = l.lineno
+            for c in sites:
+                recv = ast.unparse(c.func.value)
+                if 'call' not in recv.lower() and recv not in ('o', 'self'):
+                    continue
+                n += 1
+                av = next(k.value for k in c.keywords if k.arg == 'arguments')
+                used = {x.id for x in ast.walk(av) if isinstance(x, ast.Name)} & set(tainted)
+                sliced = any(isinstance(x, ast.Subscript) and isinstance(x.slice, ast.Slice) and isinstance(x.value, ast.Name) and x.value.id in used
+                             for x in ast.walk(av))
+                inst = f'{mod.relpath}:{fn.name}:{recv}.{c.func.attr}(arguments=...)'
+                if used and not sliced:
+                    ctx.violation('R5', f'{fn.name}:positional-list-from-all-arguments', f'{mod.relpath}:{c.lineno}',
+                                  f'`{ast.unparse(c)[:100]}` replaces the positional arguments by `{sorted(used)}`, which is accumulated over '
+                                  f'call.arg_map / arg_iter() (positional *and* keyword arguments) while the keyword arguments of the call are '
+                                  f'kept: every keyword argument is passed twice, e.g. call k(n, x(1, 2), b=y) -> call k(n, x(1:n, 2), y, b=y)',
+                                  instance=inst)
+                else:
+                    ctx.judge('R5', inst, nontrivial=bool(used))
+    ctx.floor('R5', 'positional-only call rewrites', n, 8)
 
 
 MUTANTS = [
+    Mutant('sequence-association-all-positional', 'loki/transformations/sanitise/sequence_associations.py',
+           "            return call.clone(arguments=as_tuple(new_args[:n_args]), kwarguments=new_kwargs)", "            return call.clone(arguments = as_tuple(new_args))",
+           expect=('R5', 'positional-list-from-all-arguments')),
     Mutant('groupby-adjacent-only', RS,
            "        unique_kwargs = {}\n        for kwarg in call.kwarguments:\n            unique_kwargs.setdefault(kwarg[1], kwarg)\n        _new_kwargs = as_tuple(unique_kwargs.values())\n",
            "        import itertools as it\n        _new_kwargs = as_tuple(list(kw_vals)[0] for g, kw_vals in it.groupby(call.kwarguments, key=lambda x: x[1]))\n",
